@@ -31,10 +31,13 @@ def parse_document(
     new_convertible: list[PreLine] = []  # In case a new list has to be created
     returnable: list[PreLine | list] = []  # A new returnable list
     free_tab_mode: int = 0  # Contains the line number free tab was started on
+    seen_line: bool = False  # If a non-blank line was already seen in this block
 
     for count, line in enumerate(text):
         if line.content.strip() == "":
             continue
+        first_line = not seen_line
+        seen_line = True
 
         if line.content.startswith('"""') and (count == 0 or free_tab_mode):
             if free_tab_mode == 0:
@@ -50,7 +53,7 @@ def parse_document(
         tab = has_tab(line.content, tab_char, line.number)
 
         if tab == True or isinstance(tab, str):
-            if count == 0:
+            if first_line:
                 raise InvalidTabError(f"Unexpected tab on line {line.number}")
             if isinstance(tab, str):
                 tab_char = tab
